@@ -583,8 +583,6 @@ def r19_4(ctx, m):
     from .shared import groupby_tables
 
     groupby_tables(ctx, [f], "R19.4")
-    if getattr(m, "insert", None) is None and not any(i.verdict == "violated" and i.rule == "R19.4" for i in ctx.instances):
-        raise AnalysisError("R19.4", f.where(m.loop), "cannot find where the per-read table gets a new entry inside the record loop (insert-if-absent): the per-read maxima are not decided")
     # every per-read value that the report reads after the loop is kept up to date inside it
     after = []
     seen_loop = False
@@ -638,6 +636,8 @@ def r19_4(ctx, m):
                 for tgt, (g, s) in max_updates.items():
                     attr = tgt.rsplit(".", 1)[-1]
                     ctx.check(init.get(attr) == norm(s.value), "R19.4", f.where(ins), f"the first record of a read initialises `{attr}` with the same per-record value `{norm(s.value)}` that later records are compared with", key_of(f, f"max-init:{attr}:{init.get(attr)}"), initial=init.get(attr))
+    if getattr(m, "insert", None) is None and not any(i.verdict == "violated" and i.rule == "R19.4" for i in ctx.instances):
+        raise AnalysisError("R19.4", f.where(m.loop), "cannot find where the per-read table gets a new entry inside the record loop (insert-if-absent): the per-read maxima are not decided")
 
 
 def enclosing_if(loop, stmt):
